@@ -206,8 +206,8 @@ Qed.
 
 Lemma root_damage_dsrc st d : r_dsrc (root_damage st d) = r_dsrc st.
 Proof.
-  unfold root_damage. destruct (rs_contains rsfuel (r_damage st) d) as [[|]|]; try reflexivity.
-  destruct (rs_add rsfuel (r_damage st) d); reflexivity.
+  unfold root_damage. destruct (rs_contains (r_fuel st) (r_damage st) d) as [[|]|]; try reflexivity.
+  destruct (rs_add (r_fuel st) (r_damage st) d); reflexivity.
 Qed.
 
 Lemma win_expose_dsrc st id ex : r_dsrc (win_expose st id ex) = r_dsrc st.
